@@ -26,17 +26,17 @@ for d in sorted(glob.glob(os.path.join(ROOT, "seeded", "C??_m?"))):
     what = (m.get("name") or "")[:60]
     files = ",".join(os.path.basename(f) for f in m.get("files", []))[:40]
     rows.append(f"| {tag} | {what} ({files}) | {kind} {first} | {h} | {others} |")
-txt = ("Forty changes were produced by fresh sub-agents that saw only the property text and a scratch worktree (two per property; "
-       "`seeded/<id>/patch.diff`, `demo.rs`, `meta.json`). Every one was confirmed by me in the agent's worktree: the demo passes without "
+txt = ("Eighty changes were produced by fresh sub-agents that saw only the property text and a scratch worktree (four rounds: m1, m2 two per property, "
+       "then m3 and m4 one per property each with a different area of the code suggested from the property text; `seeded/<id>/patch.diff`, `demo.rs`, `meta.json`). "
+       "Every one was confirmed by me in the agent's worktree: the demo passes without "
        "the patch and fails with it, and the unedited test suite passes with it (C02_m1 and C06_m1 fail one randomly-seeded test in some "
-       "runs; the two C18 changes are invisible to the default build and need the portable scanner). Each was then applied to a copy of `/repo` "
-       "(`tools/mutcheck.sh`) and the checks were run. Result of the first runs: 21 of 40 reported with a concrete replay by the check of "
-       "their own property, 6 reported only as `no-failing-input-found` (proof or tie broken, no input found), 11 NOT reported, 2 (C14) "
-       "could not have been reported because the harness lacked the operation. Every miss was traced to a gap in the *generators / "
-       "operations / relevance predicates* (never to a proof) and closed -- collision-run, sparse, removal, fault-matrix, get_many_mut and "
-       "inconsistent-hasher scripts, owning iterators, replace_entry_with, the layout probe, and a parser bug of my own that had silenced "
-       "the capacity oracles; see each `meta.json` (`check_history`). Final state (`seeded/MATRIX.json`, every check against every seed, "
-       "quick tier): all 40 are reported by the check of their own property with a concrete, shrunk replay. Column `also` lists the other "
+       "runs; the C18 changes are invisible to the default build and need the portable scanner). Each was then applied to a copy of `/repo` "
+       "(`tools/mutcheck.sh`) and the check of its own property was run. First runs -- rounds 1-2 (40): 21 reported with a concrete replay, 6 only as "
+       "`no-failing-input-found`, 11 NOT reported, 2 lacked the operation; round 3 (20): 12 with replay, 2 no-failing-input, 6 NOT reported; round 4 (20): 11 with replay, "
+       "9 NOT reported (several agents re-invented changes of earlier rounds against a *different* property, whose own check had never exercised that code). "
+       "Every miss was traced to a gap in the *generators / operations / element kinds / relevance predicates* (never to a proof) and closed; see each `meta.json` "
+       "(`check_history`). The rounds also exposed two false alarms of my own (13.5). Final state: all 80 are reported by the check of their own property with a concrete, shrunk replay "
+       "(`seeded/MATRIX.json`: every check against every seed of rounds 1-2, quick tier). Column `also` lists the other "
        "properties' checks that report the same change (with a replay, or -- in parentheses -- as no-failing-input-found because the "
        "generated definitions or the bit-exact tie they share broke).\n\n"
        "| seed | change | own check reports | history | also reported by |\n|---|---|---|---|---|\n" + "\n".join(rows) + "\n")
